@@ -885,7 +885,7 @@ func (e *Engine) callMod(ms *ModSet, caller *ssa.Function, c *ssa.CallCommon) {
 		if pureMethod(c.Method.Name(), full) {
 			return
 		}
-		ms.all = true
+		e.externalMod(ms, c)
 		return
 	}
 	switch v := c.Value.(type) {
@@ -928,7 +928,7 @@ func (e *Engine) callMod(ms *ModSet, caller *ssa.Function, c *ssa.CallCommon) {
 				return
 			}
 		}
-		e.fnMod(ms, v)
+		e.fnMod(ms, v, c)
 		return
 	case *ssa.MakeClosure:
 		e.fnMod(ms, v.Fn.(*ssa.Function))
@@ -937,7 +937,11 @@ func (e *Engine) callMod(ms *ModSet, caller *ssa.Function, c *ssa.CallCommon) {
 	ms.all = true
 }
 
-func (e *Engine) fnMod(ms *ModSet, fn *ssa.Function) {
+func (e *Engine) fnMod(ms *ModSet, fn *ssa.Function, ccs ...*ssa.CallCommon) {
+	var cc *ssa.CallCommon
+	if len(ccs) > 0 {
+		cc = ccs[0]
+	}
 	full := fn.String()
 	if fn.Synthetic == "package initializer" && fn.Pkg != nil {
 		// a package initialiser writes the package-level variables of its own package (and of the packages it
@@ -984,7 +988,35 @@ func (e *Engine) fnMod(ms *ModSet, fn *ssa.Function) {
 		ms.allocs = true
 		return
 	}
+	if cc != nil {
+		e.externalMod(ms, cc)
+		return
+	}
 	ms.all = true
+}
+
+// externalMod adds the type-directed write set of an external call to ms.
+func (e *Engine) externalMod(ms *ModSet, c *ssa.CallCommon) {
+	types_, elems, maps_, ghostOwners, anything := e.externalWriteSet(c)
+	ms.allocs = true
+	if anything {
+		ms.all = true
+		return
+	}
+	for t := range types_ {
+		ms.keys["O!"+t] = true
+	}
+	for t := range elems {
+		ms.keys["E!"+t] = true
+	}
+	for t := range maps_ {
+		ms.keys["MH!"+t] = true
+		ms.keys["MV!"+t] = true
+		ms.keys["ML!"+t] = true
+	}
+	for o := range ghostOwners {
+		ms.keys["X!"+o] = true
+	}
 }
 
 func (e *Engine) contractMod(ms *ModSet, con *Contract, fn *ssa.Function, callerPkg ...string) {
@@ -1246,4 +1278,95 @@ func (e *Engine) repoNamedTypes() []types.Type {
 	}
 	sort.Slice(e.namedTypes, func(i, j int) bool { return typeKey(e.namedTypes[i]) < typeKey(e.namedTypes[j]) })
 	return e.namedTypes
+}
+
+// externalWriteSet: what code outside the repository (no contract) may write, derived from the static types at the call.
+func (e *Engine) externalWriteSet(c *ssa.CallCommon) (types_, elems, maps_, ghostOwners map[string]bool, anything bool) {
+	types_ = map[string]bool{}
+	elems = map[string]bool{}
+	maps_ = map[string]bool{}
+	ghostOwners = map[string]bool{}
+	var walk func(t types.Type, depth int)
+	seen := map[string]bool{}
+	walk = func(t types.Type, depth int) {
+		if depth > 4 || t == nil {
+			return
+		}
+		k := typeKey(t)
+		if seen[k] {
+			return
+		}
+		seen[k] = true
+		if n, ok := t.(*types.Named); ok {
+			ghostOwners[shortTypeName(n)] = true
+			if n.Obj().Pkg() != nil {
+				ghostOwners[n.Obj().Pkg().Path()+"."+n.Obj().Name()] = true
+			}
+		}
+		switch u := t.Underlying().(type) {
+		case *types.Pointer:
+			types_[typeKey(u.Elem())] = true
+			walk(u.Elem(), depth+1)
+		case *types.Slice:
+			elems[typeKey(u.Elem())] = true
+			walk(u.Elem(), depth+1)
+		case *types.Array:
+			elems[typeKey(u.Elem())] = true
+			walk(u.Elem(), depth+1)
+		case *types.Map:
+			maps_[typeKey(u.Key())+"!"+typeKey(u.Elem())] = true
+			walk(u.Key(), depth+1)
+			walk(u.Elem(), depth+1)
+		case *types.Chan:
+			walk(u.Elem(), depth+1)
+		case *types.Struct:
+			types_[typeKey(t)] = true
+			for i := 0; i < u.NumFields(); i++ {
+				walk(u.Field(i).Type(), depth+1)
+			}
+		case *types.Signature:
+			// a function value handed over directly may be one of ours; function-typed fields of the structures it
+			// can reach are not followed (listed assumption)
+			if depth == 0 {
+				anything = true
+			}
+		case *types.Interface:
+			if u.NumMethods() == 0 {
+				// interface{}: dynamic type unknown unless it was converted at this call (handled by the caller)
+				return
+			}
+			// in-repo types implementing it may have their methods called (only for interfaces handed over directly:
+			// following interface-typed fields of those types further would reach nearly every type)
+			if depth > 0 {
+				return
+			}
+			for _, nt := range e.repoNamedTypes() {
+				if types.Implements(nt, u) || types.Implements(types.NewPointer(nt), u) {
+					types_[typeKey(nt)] = true
+					walk(nt, depth+1)
+				}
+			}
+		}
+	}
+	visit := func(v ssa.Value) {
+		if mi, ok := v.(*ssa.MakeInterface); ok {
+			walk(mi.X.Type(), 0)
+			return
+		}
+		if _, isEmpty := v.Type().Underlying().(*types.Interface); isEmpty && v.Type().Underlying().(*types.Interface).NumMethods() == 0 {
+			// an interface{} value of unknown dynamic type
+			if _, isConst := v.(*ssa.Const); !isConst {
+				anything = true
+			}
+			return
+		}
+		walk(v.Type(), 0)
+	}
+	for _, a := range c.Args {
+		visit(a)
+	}
+	if c.IsInvoke() {
+		visit(c.Value)
+	}
+	return
 }
